@@ -9,6 +9,8 @@ import Qryn.Gen.ErrorHandler
 import Qryn.Gen.BatcherLocks
 import Qryn.Gen.Promise
 import Qryn.Gen.PostChains
+import Qryn.Proofs.BatcherAlias
+import Qryn.Gen.BatcherAlias
 /-! # C01 — a push is acknowledged only after ClickHouse accepted all of its rows
 
 Property theorems only. Model: `Qryn.Ingest.Batcher` — `InsertServiceV2` as a state machine whose steps are
@@ -448,6 +450,82 @@ theorem running_read_outside_lock :
   decide
 
 end locks
+
+/-! ## requests that arrive while an INSERT is in flight (`Ingest.BatcherAlias`: the promise arrays over a heap) -/
+section inflight
+open Qryn.Ingest.BatcherAlias
+
+/-- the regenerated facts (what `swapBuffers` leaves in `svc.results`, what it hands over, what `releaseWaiting` ranges
+    over) keep the open batch and the portion in flight on different backing arrays -/
+theorem results_array_not_shared : Gen.BatcherAlias.cfg.disciplined = true := by decide
+
+/-- **ack_sound with the INSERT as a window.** With the promises kept in Go slices over a heap, the flusher's iteration
+    split into `swap` / `insertBegin` / `insertEnd` and any number of `Request` calls between any two of them (also
+    while `client.Do` runs), under the regenerated configuration: a promise is completed without error only after a
+    `client.Do` that returned nil for a block containing all its values. -/
+theorem ack_sound_inflight (k : Kind) (maxQueue : Nat) (R : ReqId → Req) (ops : List AOp)
+    (hW : ∀ op ∈ ops, AWellFormed R op) :
+    AckSound (planOf k) R (arun Gen.BatcherAlias.cfg (ASvc.init (planOf k) maxQueue) ops).2 := by
+  rw [(arun_refines _ results_array_not_shared ops _ (ainv_init (planOf k) maxQueue)).1]
+  exact Sound.ackSound _ (run_sound (plans_ok k) _ _ (init_inv maxQueue) (Qryn.Ingest.BatcherAlias.absRun_wellFormed ops _ hW) []).2
+
+/-- **every promise in flight is answered by ITS `insertEnd`.** Under the regenerated configuration the completions
+    of an `insertEnd` are exactly the promises `swapBuffers` took — those queued before the swap, in order — whatever
+    was requested since: state-level form of "exactly one answer, from the block that carries the rows". -/
+theorem insertEnd_completes_what_swap_took (cfg : Cfg) (hd : cfg.disciplined = true) (p : Plan) (maxQueue : Nat)
+    (ops : List AOp) (o : Outcome) (q : Portion)
+    (hq : (view (arun cfg (ASvc.init p maxQueue) ops).1).inflight = some q)
+    (hb : (arun cfg (ASvc.init p maxQueue) ops).1.began = true)
+    (hc : (arun cfg (ASvc.init p maxQueue) ops).1.s.crashed = false) :
+    (astep cfg (arun cfg (ASvc.init p maxQueue) ops).1 (.insertEnd o)).2 =
+      Event.insert q.cols q.waiting o :: q.waiting.map (fun id => Event.resolved id o) := by
+  have hI := (arun_refines cfg hd ops _ (ainv_init p maxQueue)).2.2
+  have h := (astep_refines cfg hd _ hI (.insertEnd o)).1
+  rw [h]
+  simp only [absOp, hb, if_true, Qryn.Ingest.BatcherLocks.run_single]
+  have hvc : (view (arun cfg (ASvc.init p maxQueue) ops).1).crashed = false := hc
+  rw [step_doResult _ o hvc]
+  simp [stepDoResult, hq]
+
+/-- the run of `C02.shared_results_array_counterexample` (`svc.results = results[:0]`, no private copy): request 2,
+    which arrived during INSERT 0, is acknowledged by INSERT 0 — a block without its rows; the only INSERT that
+    carried its rows failed — and request 1 is never answered although its INSERT returned -/
+theorem shared_results_array_ack_counterexample :
+    ¬ AckSound samplesPlan
+        (fun id => { id := id, ptype := .timeSamplesData, size := 30,
+                     arrays := [("MTimestampNS", [10 * id]), ("MFingerprint", [10 * id + 1]), ("MType", [10 * id + 2]),
+                                ("MValue", [10 * id + 3]), ("MMessage", [10 * id + 4])] })
+        (arun { afterSwap := .reslice, portionRes := .moved, release := .portion } (ASvc.init samplesPlan 0)
+          [.request { id := 1, ptype := .timeSamplesData, size := 30,
+                      arrays := [("MTimestampNS", [10]), ("MFingerprint", [11]), ("MType", [12]), ("MValue", [13]), ("MMessage", [14])] } true,
+           .trigger .timer, .connect true, .swap, .insertBegin,
+           .request { id := 2, ptype := .timeSamplesData, size := 30,
+                      arrays := [("MTimestampNS", [20]), ("MFingerprint", [21]), ("MType", [22]), ("MValue", [23]), ("MMessage", [24])] } false,
+           .insertEnd .ok, .trigger .timer, .swap, .insertBegin, .insertEnd .err]).2 := by
+  have hev : (arun { afterSwap := .reslice, portionRes := .moved, release := .portion } (ASvc.init samplesPlan 0)
+          [.request { id := 1, ptype := .timeSamplesData, size := 30,
+                      arrays := [("MTimestampNS", [10]), ("MFingerprint", [11]), ("MType", [12]), ("MValue", [13]), ("MMessage", [14])] } true,
+           .trigger .timer, .connect true, .swap, .insertBegin,
+           .request { id := 2, ptype := .timeSamplesData, size := 30,
+                      arrays := [("MTimestampNS", [20]), ("MFingerprint", [21]), ("MType", [22]), ("MValue", [23]), ("MMessage", [24])] } false,
+           .insertEnd .ok, .trigger .timer, .swap, .insertBegin, .insertEnd .err]).2 =
+      [.insert [("type", [12]), ("fingerprint", [11]), ("timestamp_ns", [10]), ("string", [14]), ("value", [13])] [2] .ok,
+       .resolved 2 .ok,
+       .insert [("type", [22]), ("fingerprint", [21]), ("timestamp_ns", [20]), ("string", [24]), ("value", [23])] [2] .err,
+       .resolved 2 .err] := by decide
+  rw [hev]
+  intro h
+  rcases h [.insert [("type", [12]), ("fingerprint", [11]), ("timestamp_ns", [10]), ("string", [14]), ("value", [13])] [2] .ok]
+      [.insert [("type", [22]), ("fingerprint", [21]), ("timestamp_ns", [20]), ("string", [24]), ("value", [23])] [2] .err,
+       .resolved 2 .err] 2 rfl with h0 | ⟨b, w, hb, hc⟩
+  · simp only [NoRows] at h0; revert h0; decide
+  · simp only [List.mem_cons, Event.insert.injEq, reduceCtorEq, and_false, false_or, List.not_mem_nil, or_false] at hb
+    obtain ⟨rfl, _, _⟩ := hb
+    have := hc "type" (by decide)
+    revert this
+    decide
+
+end inflight
 
 
 /-! ## `Request` whose unlocked `running` check passed just before the stop (`requestProgram`: the check is free) -/
